@@ -112,11 +112,20 @@ def check(pid, tier, seed, replay=None):
             v.violation("program %s: %s (valbad=%s jdiff=%s decerr=%s)" % (e["id"], tags, e.get("valbad"), e.get("jdiff"), e.get("decerr", "")[:80]),
                         {"property": pid, "program": byid[e["id"]], "recording": e, "json_build": jout.get(e["id"]),
                          "binary_out_b64": decs.get(e["id"], (None, None))[0], "decoded_b64": decs.get(e["id"], (None, None))[1]})
+        esc = {}
+        if pid == "C08" and not replay:
+            # "text and []byte with the same escaping": the decoder's own copy of the escaping loop against JsonString.tla
+            from checks import escape
+            eviol, edrift, en, estats = escape.run(sc, tier, seed, binary=True)
+            for e in eviol:
+                v.violation("bundled decoder, %s of %s: wrote %s - not clean / not valid UTF-8 / does not un-escape to the input" % (e["via"], bytes(e["in"]).hex(), e["out"][:60]),
+                            {"property": pid, "kind": "escape", "record": e})
+            esc = dict(estats, records=en, drift_from_transcription=edrift)
         nprog = sum(len(x) - 2 for x in shard_lines)
         sample = [json.loads(x[1]) for x in shard_lines[:2] if len(x) > 1]
         cov = {"states": max(1, stats["distinct"]), "transitions": max(1, stats["generated"]), "traces_validated_against_impl": nprog, "samples": sample,
                "programs_run_under_both_build_tags": nprog, "scalar_values_compared_with_arguments": nval, "rejected_for_sibling_property": other,
-               "known_findings_matched": {k: n for k, (n, _) in v.known.items()}, "exhaustive": False,
+               "known_findings_matched": {k: n for k, (n, _) in v.known.items()}, "escaping": esc, "exhaustive": False,
                "checker_cmd": "tlc EventDocMC.tla (programs); tlc CborTrace.tla (CborWF automaton + ExpectedKeys + projections)"}
         write_evidence(pid, tier, seed, "model_checking", cov, time.time() - t0, len(v.violations),
                        assumptions=["harness/prog/cborref.go (independent RFC 8949 scanner/decoder) and lib/cborproj.py (value comparisons) are the projections",
